@@ -116,7 +116,7 @@ func monitor(r *run) []finding {
 			tag, h := gi(e, "tag"), gi(e, "h")
 			if tag <= 0 || !gb(e, "headok") || tag != head() {
 				add(i, "sync:revert-bookkeeping-mismatch", fmt.Sprintf("OnReorg(%d) does not match the chain the stores built (%v)", h, shadow))
-				if len(shadow) > 0 {
+				if gb(e, "headok") && len(shadow) > 0 {
 					shadow = shadow[:len(shadow)-1]
 				}
 				lastWrite = seq
@@ -141,7 +141,9 @@ func monitor(r *run) []finding {
 					cause = "corrupt-remote-header"
 				case cmp != nil:
 					cause = "remote-compare"
-				case parentObs != nil && gi(parentObs, "h") == h+1:
+				case parentObs != nil && gs(parentObs, "r") == "wh":
+					cause = "wrong-height-answer"
+				case parentObs != nil && gi(parentObs, "bh") == h+1:
 					if w.has(cur, gi(parentObs, "tag")) {
 						cause = "successor-mismatch"
 					} else {
